@@ -10,12 +10,17 @@ import tempfile
 
 from . import common
 from . import store_hist as sh
+from . import tieb_stores
 from .common import Check
 
 RULE = ("deterministic boundary corpus (every tie pattern of start/end instants of two events on a 0..2 s "
         "grid, second bucket holding the same instants, limit-1 read + replace_last, delete-newest + insert, "
-        "bulk upsert, bucket delete + re-create) then seeded random well-formed histories of 1-40 ops over 1-3 "
-        "buckets with timestamps from a pool of 4-6 values; every history is run on memory, sqlite (temp file) "
+        "bulk upsert, bucket delete + re-create; bulk calls with lists of 0, 1, 2, 3 elements in every mix of "
+        "upserts and plain inserts), each on BOTH layers (calls on the storage object; calls through the public "
+        "Datastore / Bucket API), then seeded random well-formed histories of 1-40 ops over 1-3 "
+        "buckets with timestamps from a pool of 4-6 values, alternating between the two layers, the event handed "
+        "to replace / replace_last carrying a live id of its own in half of the calls, one history in five passing "
+        "Event objects a second time; every history is run on memory, sqlite (temp file) "
         "and peewee (temp file); non-trivial = a run in which a replace/replace_last/delete/upsert succeeded on "
         "a bucket holding two or more events")
 
@@ -223,15 +228,22 @@ def main(argv=None):
     ck = Check("C02", argv)
     common.setup_impl_env()
     ck.run_witnesses(["w05", "w06", "w09"])
-    ck.prove()
-    have_driver = ck.driver("ExC02")
+    ck.prove(extra_targets=tieb_stores.STORES[0], gen_kernels=tieb_stores.STORES[1])   # ties A + B
+    have_driver = ck.driver("ExC02ds")     # ExC02 + the Datastore / Bucket layer (case tag 30)
 
+    # every history is a 4-tuple (symbolic ops, universe, None, layer): the deterministic corpora run on BOTH
+    # layers (storage object; public API = Datastore / Bucket), the random histories alternate
     n_random = 900 if ck.tier == "quick" else 45000
-    hists = sh.boundary_histories() + [sh.gen_history(ck.rng, malformed=False) for _ in range(n_random)]
+    hists = [(sym, univ, None, layer) for layer in sh.LAYERS
+             for sym, univ in sh.boundary_histories() + sh.bulk_boundary_histories()]
+    for i in range(n_random):
+        sym, univ = sh.gen_history(ck.rng, malformed=False, reuse=0.3 if i % 5 == 4 else 0.0)
+        hists.append((sym, univ, None, sh.LAYERS[i % 2]))
     results = sh.run_impl_batch(hists)
 
     # --- property oracle on the implementation
-    for hi, ((sym, univ), r) in enumerate(zip(hists, results)):
+    for hi, ((sym, univ, _q, layer), r) in enumerate(zip(hists, results)):
+        ck.count(f"layer:{layer}")
         for be in sh.BACKENDS:
             run = r[be]
             before = [[] for _ in univ]
@@ -243,12 +255,26 @@ def main(argv=None):
                 ck.count(f"{be}:{sh.OPNAME[op[0]]}:" + ("outside-quantifier" if verdict == "skip" else
                                                          "ok" if res[0] == 0 else sh.ERRNAME.get(res[1], "err")))
                 if verdict not in (None, "skip"):
-                    ck.failing_input(f"C02:{be}:{sh.OPNAME[op[0]]}:{verdict.split(':')[0][:60]}", f"{be}: {verdict}",
-                                     {"backend": be, "history": [sh.describe(o) for o in run["ops"][:j + 1]],
+                    via = "" if layer == "storage" else " (through Datastore/Bucket)"
+                    ck.failing_input(f"C02:{be}:{sh.OPNAME[op[0]]}:{verdict.split(':')[0][:60]}", f"{be}{via}: {verdict}",
+                                     {"backend": be, "layer": layer,
+                                      "history": [sh.describe(o) for o in run["ops"][:j + 1]],
                                       "wire_ops": run["ops"][:j + 1], "universe": univ,
+                                      "object_reuse": run["objs"][:j + 1] if any(run["objs"][:j + 1]) else None,
                                       "before": before, "after": after, "result": res,
-                                      "how": "harness.store_hist.apply_op on a fresh storage, ops in order"})
+                                      "how": "harness.store_hist.replay_run(backend, wire_ops, universe, layer, "
+                                             "object_reuse): the ops in order on a fresh back end; layer 'datastore' = "
+                                             "every call through aw_datastore.Datastore / Bucket (Bucket.insert(Event) for "
+                                             "insert, Bucket.insert(list) for insert_many, ...); object_reuse[j] names the "
+                                             "earlier Event object passed again as op j's argument"})
                     break
+                if op[0] == 6:
+                    ck.count(f"{layer}:bulk-call:{min(len(op[2]), 4)}{'+' if len(op[2]) > 4 else ''}-element-list:"
+                             f"{sum(1 for e in op[2] if e[0])}-with-id")
+                if op[0] in (7, 8):
+                    ck.count(f"{sh.OPNAME[op[0]]}:event-argument-" + ("carries-an-id" if op[-1][0] else "without-id"))
+                if run["objs"][j]:
+                    ck.count("event-object-passed-again")
                 if op[0] in (6, 7, 8, 9) and res[0] == 0 and op[1] in univ:
                     c = contents(before[univ.index(op[1])])
                     if c is not None and len(c) >= 2:
@@ -259,7 +285,7 @@ def main(argv=None):
                             ck.count("write-on-bucket-with-tied-timestamps")
                 prev = (op, res)
                 before = after
-            ck.note_case([be, run["ops"]], nontrivial=interesting)
+            ck.note_case([be, layer, run["ops"]], nontrivial=interesting)
             ck.count("history-length-%02d-%02d" % (len(run["ops"]) // 10 * 10, len(run["ops"]) // 10 * 10 + 9))
         # interchangeability: same history, same contents up to the order-preserving id renaming
         runs = [r[be] for be in sh.BACKENDS]
@@ -269,28 +295,36 @@ def main(argv=None):
                 if any(ambiguous_replace_last(x["ops"][j], bf, univ) for x, bf in zip(runs, before)):
                     ck.count("interchangeability-compared-until-ambiguous-replace_last")
                     break
+                if any(x["objs"][j] for x in runs):
+                    # an Event object passed a second time carries whatever id ITS back end wrote into it
+                    # (sqlite/peewee set event.id, memory copies): the histories no longer correspond
+                    ck.count("interchangeability-compared-until-an-event-object-is-passed-again")
+                    break
                 shapes = []
                 for x in runs:
                     shapes.append([None if v == [] else [tuple(w[1:]) for w in v[0][1]] for v in x["steps"][j][1:]])
                 if not (shapes[0] == shapes[1] == shapes[2]):
                     ck.failing_input("C02:backends-not-interchangeable",
                                      f"after op {j} ({sh.describe(runs[0]['ops'][j])}) the back ends hold different contents",
-                                     {"symbolic_history": sym[:j + 1], "universe": univ,
-                                      "contents_by_backend": dict(zip(sh.BACKENDS, shapes))})
+                                     {"symbolic_history": sym[:j + 1], "universe": univ, "layer": layer,
+                                      "wire_ops_by_backend": {be: x["ops"][:j + 1] for be, x in zip(sh.BACKENDS, runs)},
+                                      "contents_by_backend": dict(zip(sh.BACKENDS, shapes)),
+                                      "how": "harness.store_hist.replay_run(backend, wire_ops, universe, layer) per back end"})
                     break
                 before = [x["steps"][j][1:] for x in runs]
         else:
             ck.count("interchangeability-not-compared(handles resolved differently)")
         if len(ck.samples) < 4 and len(r["sqlite"]["ops"]) >= 8:
-            ck.sample({"backend": "sqlite", "history": [sh.describe(o) for o in r["sqlite"]["ops"][:12]],
+            ck.sample({"backend": "sqlite", "layer": layer, "history": [sh.describe(o) for o in r["sqlite"]["ops"][:12]],
                        "final_dump": r["sqlite"]["steps"][-1][1:]})
 
     # --- correspondence with the models
     if have_driver:
-        flat = [(be, univ, r[be]["ops"]) for (sym, univ), r in zip(hists, results) for be in sh.BACKENDS]
+        flat = [(be, univ, r[be]["ops"], layer) for (sym, univ, _q, layer), r in zip(hists, results)
+                for be in sh.BACKENDS]
         model = sh.run_model_batch("C02", flat)
         k = 0
-        for (sym, univ), r in zip(hists, results):
+        for (sym, univ, _q, layer), r in zip(hists, results):
             for be in sh.BACKENDS:
                 mo = model[k]
                 k += 1
@@ -300,16 +334,23 @@ def main(argv=None):
                     continue
                 for j, (ms, is_) in enumerate(zip(mo, steps)):
                     if ms != is_:
-                        ck.disagreement(be, f"op {j} {sh.describe(r[be]['ops'][j])}: model and {be} differ",
-                                        {"backend": be, "history": [sh.describe(o) for o in r[be]["ops"][:j + 1]],
-                                         "wire_ops": r[be]["ops"][:j + 1], "universe": univ, "model": ms, "impl": is_})
+                        ck.disagreement(be, f"op {j} {sh.describe(r[be]['ops'][j])}: model and {be} differ"
+                                            + ("" if layer == "storage" else " (through Datastore/Bucket)"),
+                                        {"backend": be, "layer": layer,
+                                         "history": [sh.describe(o) for o in r[be]["ops"][:j + 1]],
+                                         "wire_ops": r[be]["ops"][:j + 1], "universe": univ,
+                                         "object_reuse": r[be]["objs"][:j + 1], "model": ms, "impl": is_})
                         break
     ck.assumptions += [
         "strings/data enter the models as labels (0 = the falsy value of its kind); the time codec is the identity "
         "in these models (C01 proves the codecs)",
         "SQLite returns rows of equal timestamp in ascending rowid order for peewee's ORDER BY timestamp DESC "
         "(modelled as a stable sort of the table scan; compared on every run)",
-        "dumps are taken through the storage API (get_metadata + get_events(-1)) and compared sorted by id",
+        "dumps are taken through the API of the layer the history runs on (get_metadata + get_events(-1), resp. "
+        "Bucket.metadata + Bucket.get(-1)) and compared sorted by id",
+        "layer 'datastore': per-bucket calls go through the Bucket object create_bucket handed back (a Bucket built "
+        "from the bare id for a bucket this client did not create); model = Model/Datastore.v under "
+        "Model/DatastoreApi.v api_call",
     ]
     return ck.finish(RULE)
 
